@@ -1,6 +1,7 @@
 package simdb
 
 import (
+	"strconv"
 	"fmt"
 	"sort"
 	"strings"
@@ -155,6 +156,16 @@ func NewServer(name, version string) *Server {
 	return &Server{Name: name, Version: version, schemas: map[string]*Schema{}, conns: map[int]*Conn{}, locks: map[string]*Txn{},
 		waits: map[*Txn]*Txn{}, LockWaitTimeout: 50 * time.Second, xaPrepared: map[string]*Txn{},
 		Vars: map[string]string{"auto_increment_increment": "1", "autocommit": "ON"}, now: time.Now}
+}
+
+// nextAuto: the next generated AUTO_INCREMENT value after cur under the
+// server's auto_increment_increment (offset 1): 1, 1+n, 1+2n, ...
+func (s *Server) nextAuto(cur int64) int64 {
+	step, _ := strconv.ParseInt(s.Vars["auto_increment_increment"], 10, 64)
+	if step <= 1 || cur < 0 {
+		return cur + 1
+	}
+	return (cur+step-1)/step*step + 1
 }
 
 func (s *Server) logf(format string, a ...any) uint64 {
